@@ -21,6 +21,7 @@ import (
 
 	sgbucket "github.com/couchbase/sg-bucket"
 	verifsim "github.com/couchbase/sync_gateway/verifsim"
+	"github.com/couchbase/sync_gateway/verifsim/simstore"
 )
 
 type c10Op struct {
@@ -59,6 +60,12 @@ func c10Generate(seed uint64, tier string, index int) json.RawMessage {
 	p.Cfg = schedCfg(r, 60000)
 	p.Cfg.ClockPermille = []int{0, 10, 40}[r.Intn(3)]
 	p.Cfg.FaultPermille = nil
+	if index%2 == 1 {
+		// a write that loses its compare-and-swap and starts over (as it does when another writer touched the
+		// document): the outcome and the stored vector must be what a first-time success gives
+		p.Cfg.MaxFaults = r.Range(1, 4)
+		p.Cfg.FaultPermille = map[string]int{simstore.AltCasMiss: []int{60, 150, 400}[r.Intn(3)]}
+	}
 	p.Node = nodeOpts{RevCacheSize: []int{-1, 0}[r.Intn(2)], FeedWorkers: 1, NumVB: 2, SyncFn: `function(doc){ channel("A"); }`}
 	resolvers := []string{"", "", "local", "remote", "lww", "merge"}
 	if index%4 == 3 {
